@@ -2,6 +2,7 @@ package ledgerstore
 
 import (
 	"bytes"
+	"sync"
 	"encoding/binary"
 	"errors"
 
@@ -160,4 +161,140 @@ func Harness_C05_failed_tx_only_pays_fee() {
 		cover("c05-succeeded")
 		assert(payerAfter+otherAfter+govAfter == payerBal+otherBal+govBal, "successful-transaction-conserves-ong")
 	}
+}
+
+// ---- block level: the real executeBlock loop over two transactions of the same payer ----
+
+var c05TxNo int
+
+type c05BlockEngine struct{ sc *smartcontract.SmartContract }
+
+var c05Spent [2]uint64
+var c05Failed [2]bool
+
+func (e *c05BlockEngine) Invoke() (interface{}, error) {
+	sc := e.sc
+	i := int(sc.Config.Tx.Nonce) // the harness numbers the block's transactions in their nonce field
+	used := uint64(0)
+	if nondetBool("vm.usesallgas") {
+		used = sc.Gas
+	}
+	sc.Gas -= used
+	sc.CacheDB.Put([]byte{'s', byte(i)}, []byte{1}) // every transaction writes its own slot
+	if nondetBool("vm.spends") {
+		b := c05Bal(sc.CacheDB, c05Payer)
+		amt := b // the contract moves the payer's whole balance, or one unit
+		if nondetBool("vm.spendsone") && b > 0 {
+			amt = 1
+		}
+		c05SetBalZ(sc.CacheDB, c05Payer, b-amt)
+		c05SetBalZ(sc.CacheDB, c05Other, c05Bal(sc.CacheDB, c05Other)+amt)
+		c05Spent[i] = amt
+	}
+	if nondetBool("vm.fails") {
+		c05Failed[i] = true
+		return nil, errors.New("vm fault")
+	}
+	return nil, nil
+}
+
+// balances the way the native token keeps them: a zero balance is a deleted record
+func c05SetBalZ(cache *storage.CacheDB, a common.Address, x uint64) {
+	if x == 0 {
+		cache.Delete(c05BalKey(a))
+		return
+	}
+	c05SetBal(cache, a, x)
+}
+
+func c05ChargeZ(payer common.Address, gas uint64, config *smartcontract.Config, cache *storage.CacheDB, st store.LedgerStore) ([]*event.NotifyEventInfo, error) {
+	b := c05Bal(cache, payer)
+	if b < gas {
+		return nil, errors.New("ong transfer: insufficient balance")
+	}
+	c05SetBalZ(cache, payer, b-gas)
+	c05SetBalZ(cache, utils.GovernanceContractAddress, c05Bal(cache, utils.GovernanceContractAddress)+gas)
+	return nil, nil
+}
+
+func c05NewBlockEngine(sc *smartcontract.SmartContract, code []byte, t types.TransactionType) (context.Engine, error) {
+	return &c05BlockEngine{sc}, nil
+}
+
+func c05GasTable(m *sync.Map, f func(k, v interface{}) bool) {
+	f(neovm.UINT_INVOKE_CODE_LEN_NAME, uint64(10))
+}
+
+func c05NoRefresh(config *smartcontract.Config, cache *storage.CacheDB, st store.LedgerStore) error { return nil }
+
+var c05BlockPrices = []uint64{0, 2500, 1}
+
+var c05Balances = []uint64{0, 50000000, 50000001, 1000000000000, 20000, 100000000}
+var c05Limits = []uint64{0, 20000, 40000, 20001}
+
+func Harness_C05_block() {
+	payerBal := c05Balances[nondetRange("payer.balance", param("nbalances"))]
+	govBal := uint64(nondetRange("gov.balance", param("nother")))
+	otherBal := uint64(nondetRange("other.balance", param("nother")))
+	pre := func(k []byte) []byte { return append([]byte{byte(scom.ST_STORAGE)}, k...) }
+	var es []c01Ent
+	put := func(a common.Address, x uint64) {
+		if x != 0 {
+			var b [8]byte
+			binary.LittleEndian.PutUint64(b[:], x)
+			es = append(es, c01Ent{pre(c05BalKey(a)), b[:]})
+		}
+	}
+	put(c05Payer, payerBal)
+	put(utils.GovernanceContractAddress, govBal)
+	put(c05Other, otherBal)
+	ls := &LedgerStoreImp{stateStore: &StateStore{store: &c05Persist{es: es}, stateHashCheckHeight: 1 << 30}, stateHashCheckHeight: 1 << 30}
+	c05TxNo = 0
+	c05Spent = [2]uint64{}
+	c05Failed = [2]bool{}
+	block := &types.Block{Header: &types.Header{Height: uint32(1 + nondetRange("height", 2)*20000000), Timestamp: 1}}
+	for i := 0; i < 2; i++ {
+		tx := &types.Transaction{TxType: types.InvokeNeo, GasPrice: c05BlockPrices[nondetRange("gasprice", param("nprices"))],
+			GasLimit: c05Limits[nondetRange("gaslimit", param("nlimits"))], Payer: c05Payer, Nonce: uint32(i), Payload: &payload.InvokeCode{Code: []byte{0}}}
+		block.Transactions = append(block.Transactions, tx)
+	}
+	result, err := ls.executeBlock(block)
+	assert(err == nil, "block-executes")
+	if err != nil {
+		return
+	}
+	cover("c05-block-executed")
+	// read the block's write set on top of the persisted balances
+	ov := overlaydb.NewOverlayDB(ls.stateStore.store)
+	result.WriteSet.ForEach(func(k, v []byte) {
+		if len(v) == 0 {
+			ov.Delete(k)
+		} else {
+			ov.Put(k, v)
+		}
+	})
+	view := storage.NewCacheDB(ov)
+	payerAfter, govAfter, otherAfter := c05Bal(view, c05Payer), c05Bal(view, utils.GovernanceContractAddress), c05Bal(view, c05Other)
+	assert(len(result.Notify) == 2, "one-notification-per-transaction")
+	if len(result.Notify) != 2 {
+		return
+	}
+	fees := result.Notify[0].GasConsumed + result.Notify[1].GasConsumed
+	assert(result.Notify[0].GasConsumed <= payerBal && result.Notify[1].GasConsumed <= payerBal, "each-fee-within-initial-balance")
+	assert(govAfter == govBal+fees, "governance-gains-exactly-the-reported-fees")
+	spent := uint64(0)
+	for i := 0; i < 2; i++ {
+		ok := result.Notify[i].State == event.CONTRACT_STATE_SUCCESS
+		if c05Failed[i] {
+			assert(!ok, "faulting-transaction-reported-failed")
+		}
+		slot, serr := view.Get([]byte{'s', byte(i)})
+		present := serr == nil && len(slot) != 0
+		assert(present == ok, "storage-write-survives-exactly-when-the-transaction-succeeded")
+		if ok {
+			spent += c05Spent[i]
+		}
+	}
+	assert(otherAfter == otherBal+spent, "token-moves-survive-exactly-for-successful-transactions")
+	assert(payerAfter+fees+spent == payerBal && fees <= payerBal && spent <= payerBal, "payer-loses-exactly-fees-and-successful-spending")
 }
